@@ -19,8 +19,19 @@ fn opts(r: &mut Rng) -> Value {
 }
 fn rel_day(r: &mut Rng) -> i64 { match r.range(0, 3) { 0 => r.range(-40_000, 40_000), 1 => r.range(-700_000, 700_000), _ => any_day(r).clamp(MIN_DAY + 400_000, MAX_DAY - 400_000) } }
 
+/// year-month until/since with year/month smallest units, increments and modes (also the second trace leg of C18)
+pub fn ym_diff(t: &mut Tracer, r: &mut Rng) {
+    let a = r.range(-3_000_000, 3_000_000); let b = a + match r.range(0, 2) { 0 => r.range(-30, 30), 1 => r.range(-400, 400), _ => r.range(-200_000, 200_000) };
+    let ym = |i: i64| json!({"y": i.div_euclid(12), "m": i.rem_euclid(12) + 1});
+    let si = r.range(8, 9) as usize; let li = r.range(si as i64, 9) as usize;
+    let st = json!({"largest": UNITS[li], "smallest": UNITS[si], "inc": *r.pick(&[1i64, 1, 2, 3, 5, 7, 12]), "mode": *r.pick(&MODES)});
+    t.call(if r.chance(1, 2) { "PlainYearMonth.until" } else { "PlainYearMonth.since" }, json!({"recv": ym(a), "other": ym(b), "st": st}));
+}
+pub fn drive_ym(t: &mut Tracer, r: &mut Rng, n: usize) { while t.n < n { ym_diff(t, r); t.reset(); } }
+
 pub fn drive(t: &mut Tracer, r: &mut Rng, n: usize) {
     while t.n < n {
+        if r.chance(1, 10) { ym_diff(t, r); t.reset(); continue; }
         let rel = date_json(rel_day(r));
         match r.range(0, 9) {
             0..=3 => { t.call("Duration.round", json!({"recv": mixed_dur(r), "rel": rel, "st": opts(r)})); }
